@@ -10,7 +10,7 @@
    count for block h is at least uint32(float64(threshold) * 0.685) (0.585
    for certificate votes), the threshold being the one a delivered message's
    stake look-up or the voter's own step view supplied. *)
-From VF.C03 Require Import Model ProofsA ProofsB ProofsC ProofsD.
+From VF.C03 Require Import Model ProofsA ProofsB ProofsC ProofsD ProofsE.
 Local Open Scope N_scope.
 
 (* 1. a precommit goes out only on a counted prevote quorum for exactly that
@@ -132,6 +132,71 @@ Print Assumptions C03_credentials_hold_outside.
 Theorem C03_credentials_with_repair : credentials_full true.
 Proof. exact credentials_repaired. Qed.
 Print Assumptions C03_credentials_with_repair.
+
+(* 6. the tie to C02: the voter never signs two conflicting votes, even across
+   restarts.  Histories now also contain [Restart] (NewVoter over the same
+   database: all volatile state is re-initialised, the vote database is
+   NewVoteDB on the same store).  [all_events E init_voter ops] are all events
+   the voter posts over the history, in order; [sends] keeps the votes
+   (SendMessageEvent) as (kind, position), position = enc round index. *)
+
+(* simulation: the operations the voter performs on its vote database over any
+   history form an op list of C02's model (Ctx / Vote / Restart) that lets out
+   exactly the voter's votes, in the same order, and ends in the voter's database *)
+Theorem C03_voter_is_votedb_history : forall E ops,
+  exists dops, V.emitted (snd (V.run V.init dops)) = sends (all_events E init_voter ops)
+               /\ fst (V.run V.init dops) = v_db (run_on E init_voter ops).
+Proof. exact voter_is_votedb_history. Qed.
+Print Assumptions C03_voter_is_votedb_history.
+
+(* hence, by C02_one_vote: per kind and (round, index) at most one vote goes out
+   (two for next-index), for every history with any number of restarts - so never
+   two different blocks for one kind at one position *)
+Theorem C03_voter_one_vote : forall E ops k p,
+  (V.count_votes k p (sends (all_events E init_voter ops)) <= V.limit k)%nat.
+Proof. exact voter_one_vote. Qed.
+Print Assumptions C03_voter_one_vote.
+
+(* persist before post.  Function level: vote() returns nil only after
+   UpdateVoteData succeeded; the store it returned holds the record, the
+   SendMessageEvent is the first event of that branch and everything later
+   proceeds from that store (a crash between the two loses the message, never
+   the record) *)
+Theorem C03_vote_persists_first : forall E v t h p v' ev,
+  vote E v t h p = (v', ev, true) ->
+  exists d sl n rest,
+    V.update_vote_data (v_db v) t (V.enc (round_of v) (v_idx v)) = (d, true) /\
+    V.kind_of sl = t /\ V.st d sl = Some (V.enc (round_of v) (v_idx v)) /\
+    ev = ESend t (round_of v) (v_idx v) h p n :: rest.
+Proof. exact vote_persists_first. Qed.
+Print Assumptions C03_vote_persists_first.
+
+(* history level: in the database history induced by any voter history, every
+   vote that is let out comes out of an UpdateVoteData whose store holds the record *)
+Theorem C03_voter_persist_before_post : forall E ops,
+  exists dops,
+    V.emitted (snd (V.run V.init dops)) = sends (all_events E init_voter ops) /\
+    forall d1 o d2 k q d',
+      dops = d1 ++ o :: d2 ->
+      V.step (fst (V.run V.init d1)) o = (d', V.OEmit k q) ->
+      exists sl, V.kind_of sl = k /\ V.st d' sl = Some q.
+Proof. exact voter_persist_before_post. Qed.
+Print Assumptions C03_voter_persist_before_post.
+
+(* non-vacuity: the voter prevotes and precommits at (7,1), restarts, re-enters
+   (7,1): the prevote is refused by the replayed database; at (7,2) it votes again *)
+Example C03_nonvacuous_restart :
+  let E := mkEnv 0 [(7, 1, V.Prevote, (1, 4, Chamber)); (7, 1, V.Precommit, (1, 4, Chamber));
+                    (7, 2, V.Prevote, (1, 4, Chamber))] true false true true in
+  sends (all_events E init_voter
+           [Cache 1 true; Ctx 7 1 2 false (Some (1, 1));
+            Msg (mkMsg Same V.Prevote 7 1 1 1 1 true 1 false (Some (4, Chamber)) (CredGiven true));
+            Restart; Ctx 7 1 2 false (Some (1, 2));
+            Msg (mkMsg Same V.Prevote 7 1 2 1 1 true 2 false (Some (4, Chamber)) (CredGiven true));
+            Ctx 7 2 2 false (Some (1, 2))])
+  = [(V.Prevote, V.enc 7 1); (V.Precommit, V.enc 7 1); (V.Prevote, V.enc 7 2)].
+Proof. vm_compute. reflexivity. Qed.
+Print Assumptions C03_nonvacuous_restart.
 
 (* ---- non-vacuity ------------------------------------------------------------------ *)
 (* a history in which prevotes reach the quorum exactly (2 of threshold 4), the
